@@ -25,10 +25,12 @@ Record config := {
   permit : bool;            (* screen->permitFileTransfer *)
   has_cb : bool;            (* screen->getFileTransferPermission != NULL *)
   home : option str;        (* getenv("HOME") *)
-  fix_f7 : bool;            (* false = unchanged tree; true = with notes/fix_C19_1.diff (descriptor closed
-                               before it is overwritten and at connection teardown) *)
-  fix_f14 : bool            (* true = with notes/fix_C19_2.diff (rfbWriteExact unlocks outputMutex on its
-                               invalid-socket exit) *)
+  fix_f7 : bool;            (* true = the tree since fix commit 4d56b95 (descriptor closed before it is replaced
+                               and at connection teardown); false = the flow before that commit *)
+  fix_f14 : bool;           (* true = the tree since fix commit b4cfd8a (rfbWriteExact unlocks outputMutex on its
+                               invalid-socket exit); false = the flow before *)
+  fix_f7b : bool            (* false = the tree; true = with notes/fix_C19_1.diff (rfbSendDirContent closes the
+                               directory stream when its first reply cannot be sent) *)
 }.
 
 Inductive env_ans :=
@@ -121,10 +123,11 @@ Definition upd_lost (s : xstate) : xstate :=
   {| fd_open := fd_open s; sending := sending s; receiving := receiving s; compression := compression s; sock_open := sock_open s;
      out_locked := out_locked s; lost_fds := lost_fds s + 1 |}.
 
-(* before cl->fileTransfer.fd = open(...): with the fix a descriptor that is still open is closed *)
+(* before cl->fileTransfer.fd = open(...): a descriptor that is still open is closed (fix 4d56b95;
+   the sending/receiving flags are left as they are) *)
 Definition pre_open (cfg : config) : M unit :=
   s0 <- get_st ;;
-  if fix_f7 cfg && fd_open s0 then (emit (Fs FCloseFd) ;;; set_st (upd_flags false false (upd_fd false s0))) else ret tt.
+  if fix_f7 cfg && fd_open s0 then (emit (Fs FCloseFd) ;;; set_st (upd_fd false s0)) else ret tt.
 (* open succeeded: the previous descriptor, if still open, is overwritten and lost *)
 Definition set_fd_opened : M unit :=
   s0 <- get_st ;;
@@ -288,7 +291,7 @@ Definition send_dir_content (cfg : config) (length : Z) (buffer : str) : M bool 
           r <- send_msg cfg C19_DirPacket C19_ADirectory 0 length buffer ;;
           if negb r then
             (* the unchanged tree returns without closedir(): the directory stream is lost *)
-            ((if fix_f7 cfg then fs_void FClosedir else (s <- get_st ;; set_st (upd_lost s))) ;;; ret false)
+            ((if fix_f7b cfg then fs_void FClosedir else (s <- get_st ;; set_st (upd_lost s))) ;;; ret false)
           else
           w <- (fun w => (List.length (w_env w), w)) ;;
           l <- dir_loop (S w) cfg path ;;
@@ -593,7 +596,7 @@ Definition has_dotdot_component (p : str) : bool := existsb (list_eqb [46; 46]) 
 Definition starts_with_slash (p : str) : bool := match p with c :: _ => c =? 47 | [] => false end.
 
 (* the path a rfbFileListRequest / rfbFileCreateDirRequest operates on; None = nothing touched.
-   [fix_f19] = with notes/fix_C19_3.diff (ConvertPath refuses names with a ".." component and names
+   [fix_f19] = with notes/fix_C19_2.diff (ConvertPath refuses names with a ".." component and names
    that do not start with '/': root ++ "x" would be a sibling of the root) *)
 Definition tight_target (fix_f19 : bool) (registered enabled view_only : bool) (ftproot path : str) : option str :=
   if tight_gate registered enabled view_only then
